@@ -11,3 +11,8 @@ import AGV.Props.C03
 #print axioms AGV.Props.C03.c03_repeated_key_error_repaired_example
 #print axioms AGV.Props.C03.c03_partial_nodup
 #print axioms AGV.Props.C03.c03_partial_nodup_example
+#print axioms AGV.Props.C03.c03_mergeable_full_refuted
+#print axioms AGV.Props.C03.c03_spec_errors_monotone
+#print axioms AGV.Props.C03.c03_mergeable_paths_partial
+#print axioms AGV.Props.C03.c03_mergeable_paths_example
+#print axioms AGV.Props.C03.c03_fuelbound_full_refuted
